@@ -849,11 +849,11 @@ do_reorder(void)
       failf(&ispec, "compressed data error: %s", err2str(oblk->status));
   }
 
-  sink_write_buffer(oblk + 1, oblk->size, 4 * offs_incr);
   VERIF_EV("\"e\":\"Reorder\",\"maj\":%lu,\"bit\":%lu,\"sub\":%lu,\"kind\":\"%s\","
            "\"st\":%d,\"size\":%lu," VST, VMAJ(oblk->base), VBIT(oblk->base),
            VSUB(oblk->base), oblk->status == MORE ? "part" : "last",
            oblk->status, (unsigned long)oblk->size, VSA);
+  sink_write_buffer(oblk + 1, oblk->size, 4 * offs_incr);
   check_invariants();
 }
 
@@ -1047,7 +1047,7 @@ init(void)
   parser_init(&par, bs100k, 0);
   VERIF_EV("\"e\":\"InitX\",\"W\":%u,\"tin\":%u,\"tout\":%u,\"ultra\":%d,"
            "\"ig\":%lu,\"og\":%lu,\"sth\":%u,\"eth\":%u,\"uth\":%u,"
-           "\"tasks\":\"%s,%s,%s,%s,%s\"," VST, num_worker, in_slots, out_slots,
+           "\"tasks\":[\"%s\",\"%s\",\"%s\",\"%s\",\"%s\"]," VST, num_worker, in_slots, out_slots,
            (int)ultra, (unsigned long)in_granul, (unsigned long)out_granul,
            SCAN_THRESH, EMIT_THRESH, UNORD_THRESH, expansion.tasks[0].name,
            expansion.tasks[1].name, expansion.tasks[2].name,
